@@ -103,9 +103,20 @@ pub fn filter_scan_rule() -> Vec<Rewrite> { vec![
 fn is_primary_key_range(expr: &str) -> impl Fn(&mut EGraph, Id, &Subst) -> bool {
     let var = var(expr);
     move |egraph, _, subst| {
-        let Some((column, _)) = &egraph[subst[var]].data.range else {
+        let Some((column, range)) = &egraph[subst[var]].data.range else {
             return false;
         };
+        // The storage compares the bounds with the stored INT keys as they are: a bound of
+        // another type (`k < 5000000000`, `k >= 2.5`, `k > NULL`) must stay an ordinary filter.
+        let is_int = |bound: &Bound<crate::types::DataValue>| match bound {
+            Bound::Unbounded => true,
+            Bound::Included(v) | Bound::Excluded(v) => {
+                matches!(v, crate::types::DataValue::Int32(_))
+            }
+        };
+        if !is_int(&range.start) || !is_int(&range.end) {
+            return false;
+        }
         if let Some(col) = egraph.analysis.catalog.get_column(column) {
             // The storage can only seek and filter on an INT key stored as the first column.
             col.is_primary() && column.column_id == 0 && col.data_type() == crate::types::DataType::Int32
